@@ -16,6 +16,8 @@ pub const BAD_TAGS: [&str; 6] = ["", "abc", "1x", "-1", "1.5", " 1"];
 pub enum RrOp {
     RegReq { cap: u8 },
     RegRep { cap: u8 },
+    /// a burst of requestor registrations queued between two router steps
+    RegBurst { n: u8 },
     Request { r: u16, hdr: u8 },
     Reply { k: u16, which: u16, mutation: u8 },
     /// non-Message frame on a requestor stream (C11: unexpected frame kinds mid-stream)
@@ -300,6 +302,23 @@ fn run_inner(case: &RrCase, opts: RrOpts, facts: &mut RrFacts) -> Result<(), Out
                         reps.push(Rep { si, st, reg_at: idx, gone_at: None, sink_failed_at: None, unbind_observed_at: None, answered: HashSet::new(), emitted: vec![], junk_pushed: 0 });
                         queued += 1;
                         this_is_reg = true;
+                    }
+                }
+            }
+            RrOp::RegBurst { n } => {
+                if !closed {
+                    let n = 12 + (*n as usize % 30);
+                    for i in 0..n {
+                        if reqs.len() >= 60 {
+                            break;
+                        }
+                        let (si, st) = (MockSink::new(CAPS[(i + n) % CAPS.len()]), MockStream::default());
+                        if tx.try_send(reqrep::Socket::Client((Box::pin(si.clone()), Box::pin(st.clone())))).is_ok() {
+                            sinks.push((false, reqs.len()));
+                            reqs.push(Req { si, st, pushed: vec![], pushed_at: vec![], oversize: HashSet::new(), ended_at: None, failed_at: None });
+                            queued += 1;
+                            this_is_reg = true;
+                        }
                     }
                 }
             }
@@ -943,6 +962,8 @@ pub struct RrGen {
     pub junk: bool,
     pub big: bool,
     pub many_repliers: bool,
+    /// include bursts of requestor registrations
+    pub bursts: bool,
     pub max_len: usize,
     /// in two thirds of the cases start with [RegRep, RegReq x2..3, Settle] so that
     /// most of the random tail exercises a populated, bound topic
@@ -980,6 +1001,9 @@ pub fn op_strategy(g: RrGen) -> BoxedStrategy<RrOp> {
     }
     if g.big {
         v.push((3, (sel(), 0u8..48).prop_map(|(r, slack)| RrOp::BigRequest { r, slack }).boxed()));
+    }
+    if g.bursts {
+        v.push((2, any::<u8>().prop_map(|n| RrOp::RegBurst { n }).boxed()));
     }
     proptest::strategy::Union::new_weighted(v).boxed()
 }
